@@ -454,6 +454,15 @@ func (w *runner[T]) observe(m *model[T]) error {
 	if !w.sameMultiset(got, m.held) {
 		return fmt.Errorf("%s: %s.GetValues() = %v, want the multiset %v", w.where(), m.label(), got, m.held)
 	}
+	if len(got) >= 2 {
+		// The listing is the caller's: overwriting it (here: every slot with its first value) does not reach the heap.
+		for i := range got {
+			got[i] = got[0]
+		}
+		if again := m.h.GetValues(); !w.sameMultiset(again, m.held) {
+			return fmt.Errorf("%s: after the caller overwrote the listing GetValues had returned, %s.GetValues() = %v, want the multiset %v (the listing shares storage with the heap)", w.where(), m.label(), again, m.held)
+		}
+	}
 	if len(m.held) <= 1 {
 		m.taint = false // nothing to order
 	}
